@@ -106,7 +106,7 @@ func BuildMethodMap(structs []core_domain.CodeDataStruct) map[string][]string {
 	for _, clz := range structs {
 		for _, method := range clz.Functions {
 			methodName := method.BuildFullMethodName(clz)
-			methodMap[methodName] = method.GetAllCallString()
+			methodMap[methodName] = append(methodMap[methodName], method.GetAllCallString()...)
 		}
 	}
 
